@@ -2,7 +2,7 @@
 # tools/sweepseeds.sh [seed-name-pattern]: re-runs every recorded seeded change (scratch worktree, VERIF_REPO) against the
 # checks named in its meta.json (detected_by: "Cxx quick"), one line per seed: DETECTED (some check exits 1),
 # UNDECIDED (exit 2 only) or MISSED (all exit 0).
-# Expected MISSED: s185 (needs a writer outside io.Writer's contract, outside C14's stated model; DESIGN.md section 10).
+# Expected MISSED: s185 (needs a writer outside io.Writer's contract, outside C14's stated model; DESIGN.md section 10); open misses: s187, s188, s189.
 V="${VERIF_DIR:-/verif}"
 cd "$V" || exit 2
 for d in seeded/${1:-s}*/; do
